@@ -23,7 +23,7 @@ KEYS = {
 def _oracle(chk, r, a, head, rows):
     """The property itself on the real objects of one assignment."""
     cid = pitcheck.case_id(r, a)
-    unsup = pitcheck.unsupported_key(head) if head.get('sup') == '0' else None
+    unsup = pitcheck.unsupported_key(head, r) if head.get('sup') == '0' else None
     if a.get('export_error'):
         key = KEYS.get(unsup, 'C09:export-shape-inconsistent' + (':excluded' if r['excl'] else ''))
         chk.violation(key, 'exported network does not run: %s' % a['export_error'], dict(cid, kind='net'))
@@ -93,6 +93,16 @@ def run(chk):
                     chk.violation('C09:layer-invoked-twice:features-not-tied',
                                   'a layer invoked twice: exported network computes another function (%s): the features of '
                                   'its call sites / of the tensors it is applied to are not the same' % a['export_diff'],
+                                  dict(pitcheck.case_id(r, a), kind='net'))
+                continue
+            if 'err' in head and r['spec']['opts'].get('mlp_res'):
+                # residual sum with the flattened network input: a component holding the input (width C) and a layer
+                # (width C*L) is outside the model's certificate (one width per component); oracle only
+                chk.count((tuple(r['prog']), a['style'], r['spec']['seed']), nontrivial=True, bucket='residual-with-flattened-input',
+                          sample={'prog': r['prog'], 'style': a['style']})
+                _oracle(chk, r, a, {}, rows)
+                if a.get('export_diff') and not a.get('export_error'):
+                    chk.violation('C09:residual-with-flattened-input', 'exported network computes another function (%s)' % a['export_diff'],
                                   dict(pitcheck.case_id(r, a), kind='net'))
                 continue
             if 'err' in head:
